@@ -68,6 +68,9 @@ Muts(b) ==
   \cup { [kind |-> "swap", i |-> i, j |-> j, v |-> U64Zero] : i \in 1..n, j \in 1..n }
   \cup { [kind |-> "dupname", i |-> i, j |-> j, v |-> U64Zero] : i \in 1..n, j \in 1..n }
   \cup { [kind |-> "unknown", i |-> p, j |-> k, v |-> U64Zero] : p \in 1..n, k \in {0, 1, 7} }
+  \* a section the writer never emits for this version ("manifest" in b2, "primary" in b1), holding a URL,
+  \* at every position: whatever the reader makes of it, the sections after it stay where the lengths put them
+  \cup { [kind |-> "foreign", i |-> p, j |-> 0, v |-> U64Zero] : p \in 1..n }
   \cup { [kind |-> "unknownlast", i |-> 0, j |-> 3, v |-> U64Zero] }
   \cup { [kind |-> "missing", i |-> i, j |-> 0, v |-> U64Zero] : i \in 1..n }
   \cup { [kind |-> "nsec", i |-> d, j |-> 0, v |-> U64Zero] : d \in {n - 1, n + 1, 0} }
@@ -104,6 +107,11 @@ Apply(b, m) ==
     [] m.kind = "swap" -> Build(b, Swap(t, m.i, m.j), 2 * n, n, Swap(bd, m.i, m.j))
     [] m.kind = "dupname" -> Build(b, [t EXCEPT ![m.i].name = t[m.j].name], 2 * n, n, bd)
     [] m.kind = "unknown" -> Build(b, InsAt(t, m.i, [name |-> Unknown(m.j).name, len |-> U64(m.j)]), 2 * n + 2, n + 1, InsAt(bd, m.i, Unknown(m.j).body))
+    [] m.kind = "foreign" ->
+         LET nm == IF b.ver = "b2" THEN S_manifest ELSE S_primary
+             body == EncText(<<104,116,116,112,115,58,47,47,97,46,116,101,115,116,47,109>>)       \* https://a.test/m
+         IN IF \E i \in 1..n : t[i].name = nm THEN Plain(b)
+            ELSE Build(b, InsAt(t, m.i, [name |-> nm, len |-> U64(Len(body))]), 2 * n + 2, n + 1, InsAt(bd, m.i, body))
     [] m.kind = "unknownlast" -> Build(b, Append(t, [name |-> Unknown(3).name, len |-> U64(3)]), 2 * n + 2, n + 1, Append(bd, Unknown(3).body))
     [] m.kind = "missing" -> Build(b, RemAt(t, m.i), 2 * n - 2, n - 1, RemAt(bd, m.i))
     [] m.kind = "nsec" -> Build(b, t, 2 * n, m.i, bd)
